@@ -994,8 +994,18 @@ type control struct {
 
 func (ck *checker) negativeControls() []control {
 	var base *traceRec
+	count := func(tr *traceRec, e string) int {
+		n := 0
+		for _, ev := range tr.events {
+			if ev.E == e {
+				n++
+			}
+		}
+		return n
+	}
 	for _, tr := range ck.traces {
-		if tr.nframes >= 4 && tr.threads >= 2 && len(tr.eos) > 0 && !tr.bad {
+		if tr.nframes >= 4 && tr.threads >= 2 && len(tr.eos) > 0 && tr.eos[0] < tr.nframes && !tr.bad &&
+			count(tr, "dispatch") == tr.nframes && count(tr, "done") == tr.nframes && count(tr, "deliver") == tr.nframes+1 {
 			base = tr
 			break
 		}
